@@ -20,7 +20,13 @@ Property theorems (everything else in this file is a helper lemma or a non-vacui
 * binding (variables end at '/' or the end, `*` last): `keyMatch4_binding`, `keyGet2_binding`, `keyGet3_binding`,
   `keyGet2_star`, `bindCheck_spec`, `pickGroup_spec`; through `matchNodes_caps` (unique match, greedy and lazy) and
   `names_repl`; declaratively `capsOf_iff`, `keyMatch4_declarative`, `keyMatch4_total`, `keyGet2_declarative`, `keyGet3_declarative`; `keyMatch4_eq_spec`, `keyGet2_eq_spec`, `keyGet3_eq_spec`: the driver's spec column
-* ipMatch (IPv4): `ipMatch_v4`, `ipMatch_v4_addr`, `ipMatch_bad_address`, `sameBlock_shift`
+* ipMatch (IPv4 and IPv6, all four family combinations): `ipMatch_eq_spec` (the driver's spec column), `ipMatch_cidr`,
+  `ipMatch_addr`, `ipMatch_v4`, `ipMatch_v4_addr`, `ipMatch_v6`, `ipMatch_v6_addr`, `ipMatch_mixed`,
+  `ipMatch_raises_iff`, `ipMatch_bad_address`, `ipMatch_bad_pattern`, `ipMatch_total`; `maskTo_eq`, `sameBlock_shift`,
+  `sameBlock_iff_interval`, `sameBlock_full`, `sameBlock_zero`; IPv6 texts: `parseV4_parseV6_disjoint`, `parseV6_lt`,
+  `parseV6_full`, `parseV6_compressed`, `parseV6_compressed_eq_full`, `parseV6_full_congr`, `parseV6_upper`,
+  `parseV6_mapped`, `parseV6_zone`, `parseV6_zone_empty`, `parseV6_zone_twice`, `parseHextet_toUpper`,
+  `parseHextet_toLower`, `parseHextet_zero_cons`, `parseHextet_five`, `parseHextet_lt`
 
 * soundness for EVERY key, line feeds included (after `fix: … anchor the pattern with \Z`, F21-NLa):
   `keyMatch2_sound`, `keyMatch3_sound`, `keyMatch5_sound` (never raises, never `True` outside the denotation)
@@ -1026,7 +1032,14 @@ example : keyMatch2 "/a/7/x/y".toList "/a/:id/*".toList = .ok true := by decide
 /-- F21 (outside the documented form): a bare `*` raises `re.error` in keyMatch3/4/5 -/
 example : keyMatch3 "a".toList "*".toList = .err .reError ∧ tok3 "*".toList = none := by decide
 
-/-! ## ipMatch (IPv4): membership of an address in an address or CIDR block -/
+/-! ## ipMatch (IPv4 and IPv6): membership of an address in an address or CIDR block
+
+`ipMatch_eq_spec`: wherever both texts denote (address: dotted quad or an RFC 4291 IPv6 text with optional zone;
+pattern: such an address, optionally `/len` with `len` up to the family's width) the model answers
+`same family ∧ leading len bits equal`. The masking implementation is the prefix reading for every width
+(`maskTo_eq`, `sameBlock_shift`, `sameBlock_iff_interval`). What the IPv6 texts denote: `parseV6_full`,
+`parseV6_compressed`, `parseV6_mapped`, `parseV6_zone`, `parseV6_lt`; spellings of one address are one address:
+`parseHextet_toUpper`, `parseHextet_zero_cons`, `parseV6_compressed_eq_full`, `parseV6_full_congr`, `parseV6_upper`. -/
 
 theorem splitOn_ne_nil (sep : Char) (s : Str) : splitOn sep s ≠ [] := by
   induction s with
@@ -1098,9 +1111,9 @@ theorem not_mem_of_all (s : Str) (P : Char → Bool) (c : Char) (h : s.all P = t
   have := List.all_eq_true.1 h c hm
   rw [hc] at this; exact absurd this (by simp)
 
-theorem parsePrefix_digits (l : Str) (len : Nat) (h : parsePrefix l = some len) :
-    l.all isAsciiDigit = true ∧ len ≤ 32 := by
-  unfold parsePrefix at h
+theorem parsePrefixW_digits (w : Nat) (l : Str) (len : Nat) (h : parsePrefixW w l = some len) :
+    l.all isAsciiDigit = true ∧ len ≤ w := by
+  unfold parsePrefixW at h
   split at h
   · simp at h
   · rename_i hd
@@ -1111,68 +1124,1118 @@ theorem parsePrefix_digits (l : Str) (len : Nat) (h : parsePrefix l = some len) 
     · simp at h; subst h
       refine ⟨by simpa using hd.2, by omega⟩
 
-theorem maskTo_eq (len x y : Nat) : (maskTo len x == maskTo len y) = sameBlock len x y := by
-  have hm : 0 < 2 ^ (32 - len) := Nat.pow_pos (by decide)
-  have e : ∀ z, maskTo len z = 2 ^ (32 - len) * (z / 2 ^ (32 - len)) := by
+theorem parsePrefix_digits (l : Str) (len : Nat) (h : parsePrefix l = some len) :
+    l.all isAsciiDigit = true ∧ len ≤ 32 := parsePrefixW_digits 32 l len h
+
+theorem parsePrefix6_digits (l : Str) (len : Nat) (h : parsePrefix6 l = some len) :
+    l.all isAsciiDigit = true ∧ len ≤ 128 := parsePrefixW_digits 128 l len h
+
+/-- the implementation (`addr & netmask` on both sides) is the specification (the leading `len` bits agree),
+    for every address width -/
+theorem maskTo_eq (w len x y : Nat) : (maskTo w len x == maskTo w len y) = sameBlock w len x y := by
+  have hm : 0 < 2 ^ (w - len) := Nat.pow_pos (by decide)
+  have e : ∀ z, maskTo w len z = 2 ^ (w - len) * (z / 2 ^ (w - len)) := by
     intro z
-    have := Nat.div_add_mod z (2 ^ (32 - len))
+    have := Nat.div_add_mod z (2 ^ (w - len))
     unfold maskTo; omega
   simp only [e, sameBlock]
-  by_cases h : x / 2 ^ (32 - len) = y / 2 ^ (32 - len)
+  by_cases h : x / 2 ^ (w - len) = y / 2 ^ (w - len)
   · simp [h]
-  · have : ¬ 2 ^ (32 - len) * (x / 2 ^ (32 - len)) = 2 ^ (32 - len) * (y / 2 ^ (32 - len)) := by
+  · have : ¬ 2 ^ (w - len) * (x / 2 ^ (w - len)) = 2 ^ (w - len) * (y / 2 ^ (w - len)) := by
       intro e'; exact h (Nat.eq_of_mul_eq_mul_left hm e')
-    have b1 : (2 ^ (32 - len) * (x / 2 ^ (32 - len)) == 2 ^ (32 - len) * (y / 2 ^ (32 - len))) = false := by
+    have b1 : (2 ^ (w - len) * (x / 2 ^ (w - len)) == 2 ^ (w - len) * (y / 2 ^ (w - len))) = false := by
       simpa using this
-    have b2 : (x / 2 ^ (32 - len) == y / 2 ^ (32 - len)) = false := by simpa using h
+    have b2 : (x / 2 ^ (w - len) == y / 2 ^ (w - len)) = false := by simpa using h
     rw [b1, b2]
 
 /-- the specification in the usual words: the leading `len` bits agree -/
-theorem sameBlock_shift (len x y : Nat) : sameBlock len x y = (x >>> (32 - len) == y >>> (32 - len)) := by
+theorem sameBlock_shift (w len x y : Nat) : sameBlock w len x y = (x >>> (w - len) == y >>> (w - len)) := by
   simp [sameBlock, Nat.shiftRight_eq_div_pow]
+
+/-- … and as an interval: the block is `[network address, network address + 2^(w-len))` -/
+theorem sameBlock_iff_interval (w len x y : Nat) :
+    sameBlock w len x y = true ↔ maskTo w len y ≤ x ∧ x < maskTo w len y + 2 ^ (w - len) := by
+  have hm : 0 < 2 ^ (w - len) := Nat.pow_pos (by decide)
+  have e : maskTo w len y = 2 ^ (w - len) * (y / 2 ^ (w - len)) := by
+    have := Nat.div_add_mod y (2 ^ (w - len))
+    unfold maskTo; omega
+  rw [e]
+  simp only [sameBlock, beq_iff_eq]
+  constructor
+  · intro h
+    rw [← h]
+    have := Nat.div_add_mod x (2 ^ (w - len))
+    have := Nat.mod_lt x hm
+    omega
+  · intro ⟨h1, h2⟩
+    have h3 : x < 2 ^ (w - len) * (y / 2 ^ (w - len) + 1) := by rw [Nat.mul_add]; omega
+    apply Nat.le_antisymm
+    · exact Nat.le_of_lt_succ ((Nat.div_lt_iff_lt_mul hm).2 (by rw [Nat.mul_comm]; exact h3))
+    · exact (Nat.le_div_iff_mul_le hm).2 (by rw [Nat.mul_comm]; exact h1)
+
+/-- a full-length prefix denotes one address -/
+theorem sameBlock_full (w x y : Nat) : sameBlock w w x y = (x == y) := by
+  simp [sameBlock]
+
+/-- the empty prefix denotes every address of the family -/
+theorem sameBlock_zero (w x y : Nat) (hx : x < 2 ^ w) (hy : y < 2 ^ w) : sameBlock w 0 x y = true := by
+  simp [sameBlock, Nat.div_eq_of_lt hx, Nat.div_eq_of_lt hy]
+
+/-- every character of a piece is a character of the text -/
+theorem mem_of_mem_splitOn (sep : Char) (s w : Str) (c : Char) (hw : w ∈ splitOn sep s) (hc : c ∈ w) : c ∈ s := by
+  induction s generalizing w with
+  | nil => simp [splitOn] at hw; subst hw; simp at hc
+  | cons d s ih =>
+    simp only [splitOn] at hw
+    split at hw
+    · simp only [List.mem_cons] at hw
+      rcases hw with rfl | hw
+      · simp at hc
+      · exact List.mem_cons_of_mem _ (ih w hw hc)
+    · split at hw
+      · rename_i hne; exact absurd hne (splitOn_ne_nil sep s)
+      · rename_i w0 ws heq
+        rw [heq] at ih
+        simp only [List.mem_cons] at hw
+        rcases hw with rfl | hw
+        · simp only [List.mem_cons] at hc
+          rcases hc with rfl | hc
+          · simp
+          · exact List.mem_cons_of_mem _ (ih w0 (by simp) hc)
+        · exact List.mem_cons_of_mem _ (ih w (by simp [hw]) hc)
+
+theorem splitScope_mem (s a : Str) (c : Char) (h : splitScope s = some a) (hc : c ∈ a) : c ∈ s := by
+  unfold splitScope at h
+  split at h
+  · rename_i a' heq
+    simp at h; subst h
+    exact mem_of_mem_splitOn '%' s _ c (by rw [heq]; simp) hc
+  · rename_i a' z heq
+    split at h
+    · simp at h
+    · simp at h; subst h
+      exact mem_of_mem_splitOn '%' s _ c (by rw [heq]; simp) hc
+  · simp at h
+
+theorem parseV6Core_colon (s : Str) (x : Nat) (h : parseV6Core s = some x) : ':' ∈ s := by
+  apply Classical.byContradiction
+  intro hn
+  unfold parseV6Core at h
+  rw [splitOn_not_mem _ _ hn] at h
+  simp at h
+
+/-- an IPv6 address text contains a colon and no '/' -/
+theorem parseV6_chars (s : Str) (x : Nat) (h : parseV6 s = some x) : ':' ∈ s ∧ '/' ∉ s := by
+  unfold parseV6 at h
+  split at h
+  · simp at h
+  · rename_i hs
+    refine ⟨?_, by simpa using hs⟩
+    split at h
+    · simp at h
+    · rename_i addr heq
+      exact splitScope_mem s addr ':' heq (parseV6Core_colon addr x h)
+
+/-- no text is both an IPv4 and an IPv6 address (so the order of the two attempts in `ip_address` / `ip_network`
+    does not matter) -/
+theorem parseV4_parseV6_disjoint (s : Str) (x : Nat) (h : parseV6 s = some x) : parseV4 s = none := by
+  cases h4 : parseV4 s with
+  | none => rfl
+  | some y =>
+    exact absurd (parseV6_chars s x h).1 (not_mem_of_all _ _ _ (parseV4_chars s y h4) (by decide))
+
+theorem parseAddr_v4 (s : Str) (x : Nat) (h : parseV4 s = some x) : parseAddr s = some (.v4, x) := by
+  simp [parseAddr, h]
+
+theorem parseAddr_v6 (s : Str) (x : Nat) (h : parseV6 s = some x) : parseAddr s = some (.v6, x) := by
+  simp [parseAddr, h, parseV4_parseV6_disjoint s x h]
+
+theorem parseAddr_cases (s : Str) (f : Fam) (y : Nat) (h : parseAddr s = some (f, y)) :
+    (f = .v4 ∧ parseV4 s = some y) ∨ (f = .v6 ∧ parseV4 s = none ∧ parseV6 s = some y) := by
+  unfold parseAddr at h
+  split at h
+  · rename_i y' h4
+    simp only [Option.some.injEq, Prod.mk.injEq] at h
+    exact Or.inl ⟨h.1.symm, by rw [h4, h.2]⟩
+  · rename_i h4
+    split at h
+    · rename_i y' h6
+      simp only [Option.some.injEq, Prod.mk.injEq] at h
+      exact Or.inr ⟨h.1.symm, h4, by rw [h6, h.2]⟩
+    · simp at h
+
+/-- **ipMatch = its specification** wherever the specification speaks (both texts denote: any of the four family
+    combinations): the answer is `family equal ∧ leading len bits equal` -/
+theorem ipMatch_eq_spec (a b : Str) (r : Bool) (h : ipSpec a b = some r) : ipMatch a b = .ok r := by
+  unfold ipSpec at h
+  split at h
+  · rename_i f x g y len ha hb
+    simp only [Option.some.injEq] at h
+    subst h
+    unfold ipMatch
+    rw [ha]
+    simp only
+    unfold blockDen at hb
+    unfold parseNet4 parseNet6
+    split at hb
+    · -- a plain address
+      rename_i addr hs
+      rw [hs]
+      simp only
+      cases hp : parseAddr addr with
+      | none => simp [hp] at hb
+      | some fy =>
+        obtain ⟨g', y'⟩ := fy
+        simp only [hp, Option.some.injEq, Prod.mk.injEq] at hb
+        obtain ⟨rfl, rfl, rfl⟩ := hb
+        rcases parseAddr_cases _ _ _ hp with ⟨rfl, h4⟩ | ⟨rfl, h4, h6⟩
+        · simp only [h4]
+          cases f <;> simp [maskTo_eq, Fam.width]
+        · simp only [h4, h6]
+          cases f <;> simp [maskTo_eq, Fam.width]
+    · rename_i addr m hs
+      rw [hs]
+      simp only
+      cases hp : parseAddr addr with
+      | none => simp [hp] at hb
+      | some fy =>
+        obtain ⟨g', y'⟩ := fy
+        simp only [hp] at hb
+        cases hl : parsePrefixW g'.width m with
+        | none => simp [hl] at hb
+        | some len' =>
+          simp only [hl, Option.some.injEq, Prod.mk.injEq] at hb
+          obtain ⟨rfl, rfl, rfl⟩ := hb
+          rcases parseAddr_cases _ _ _ hp with ⟨rfl, h4⟩ | ⟨rfl, h4, h6⟩
+          · have hl' : parsePrefix m = some len' := hl
+            simp only [h4, parseMask4, hl']
+            cases f <;> simp [maskTo_eq, Fam.width]
+          · have hl' : parsePrefix6 m = some len' := hl
+            simp only [h4, h6, hl']
+            cases f <;> simp [maskTo_eq, Fam.width]
+    · simp at hb
+  · simp at h
+
+theorem parseAddr_no_slash (s : Str) (f : Fam) (y : Nat) (h : parseAddr s = some (f, y)) : '/' ∉ s := by
+  rcases parseAddr_cases _ _ _ h with ⟨_, h4⟩ | ⟨_, _, h6⟩
+  · exact not_mem_of_all _ _ _ (parseV4_chars s y h4) (by decide)
+  · exact (parseV6_chars s y h6).2
+
+/-- a plain address text as a pattern denotes that one address -/
+theorem blockDen_addr (n : Str) (g : Fam) (y : Nat) (hn : parseAddr n = some (g, y)) :
+    blockDen n = some (g, y, g.width) := by
+  unfold blockDen
+  rw [splitOn_not_mem _ _ (parseAddr_no_slash n g y hn)]
+  simp [hn]
+
+/-- `address/len` denotes the address's family, number and `len` -/
+theorem blockDen_cidr (n l : Str) (g : Fam) (y len : Nat) (hn : parseAddr n = some (g, y))
+    (hl : parsePrefixW g.width l = some len) : blockDen (n ++ '/' :: l) = some (g, y, len) := by
+  have h5 : '/' ∉ l := not_mem_of_all _ _ _ (parsePrefixW_digits _ l len hl).1 (by decide)
+  unfold blockDen
+  rw [splitOn_append _ _ _ (parseAddr_no_slash n g y hn), splitOn_not_mem _ _ h5]
+  simp [hn, hl]
+
+/-- **ipMatch** on an address and a CIDR block `n/len`, both of any family: `True` exactly when the families are
+    equal and the leading `len` bits agree (`strict=False`: host bits of `n` are ignored) -/
+theorem ipMatch_cidr (a n l : Str) (f g : Fam) (x y len : Nat) (ha : parseAddr a = some (f, x))
+    (hn : parseAddr n = some (g, y)) (hl : parsePrefixW g.width l = some len) :
+    ipMatch a (n ++ '/' :: l) = .ok (f == g && sameBlock g.width len x y) := by
+  apply ipMatch_eq_spec
+  simp [ipSpec, ha, blockDen_cidr n l g y len hn hl]
+
+/-- **ipMatch** on two address texts of any family: same family and same number -/
+theorem ipMatch_addr (a n : Str) (f g : Fam) (x y : Nat) (ha : parseAddr a = some (f, x))
+    (hn : parseAddr n = some (g, y)) : ipMatch a n = .ok (f == g && x == y) := by
+  rw [← sameBlock_full g.width x y]
+  apply ipMatch_eq_spec
+  simp [ipSpec, ha, blockDen_addr n g y hn]
 
 /-- **ipMatch** on a dotted-quad address and a CIDR block `n/len`: membership = the leading `len` bits agree
     (`strict=False`: host bits of `n` are ignored) -/
 theorem ipMatch_v4 (a n l : Str) (x y len : Nat)
     (ha : parseV4 a = some x) (hn : parseV4 n = some y) (hl : parsePrefix l = some len) :
-    ipMatch a (n ++ '/' :: l) = .ok (sameBlock len x y) := by
-  have ca := parseV4_chars a x ha
-  have cn := parseV4_chars n y hn
-  obtain ⟨cl, _⟩ := parsePrefix_digits l len hl
-  have h1 : ':' ∉ a := not_mem_of_all _ _ _ ca (by decide)
-  have h2 : ':' ∉ n := not_mem_of_all _ _ _ cn (by decide)
-  have h3 : ':' ∉ l := not_mem_of_all _ _ _ cl (by decide)
-  have h4 : '/' ∉ n := not_mem_of_all _ _ _ cn (by decide)
-  have h5 : '/' ∉ l := not_mem_of_all _ _ _ cl (by decide)
-  have hc : (a.contains ':' || (n ++ '/' :: l).contains ':') = false := by
-    simp [h1, h2, h3]
-  unfold ipMatch
-  rw [hc]
-  simp only [Bool.false_eq_true, if_false, ha, splitOn_append _ _ _ h4, splitOn_not_mem _ _ h5, hn, hl, maskTo_eq]
+    ipMatch a (n ++ '/' :: l) = .ok (sameBlock 32 len x y) := by
+  simpa [Fam.width] using ipMatch_cidr a n l .v4 .v4 x y len (parseAddr_v4 a x ha) (parseAddr_v4 n y hn) hl
 
 /-- **ipMatch** on two dotted-quad addresses: equality of the addresses -/
 theorem ipMatch_v4_addr (a n : Str) (x y : Nat) (ha : parseV4 a = some x) (hn : parseV4 n = some y) :
     ipMatch a n = .ok (x == y) := by
-  have ca := parseV4_chars a x ha
-  have cn := parseV4_chars n y hn
-  have h1 : ':' ∉ a := not_mem_of_all _ _ _ ca (by decide)
-  have h2 : ':' ∉ n := not_mem_of_all _ _ _ cn (by decide)
-  have h4 : '/' ∉ n := not_mem_of_all _ _ _ cn (by decide)
-  have hc : (a.contains ':' || n.contains ':') = false := by simp [h1, h2]
+  simpa using ipMatch_addr a n .v4 .v4 x y (parseAddr_v4 a x ha) (parseAddr_v4 n y hn)
+
+/-- **ipMatch** on an IPv6 address and an IPv6 block `n/len` (every text form of either, zones ignored):
+    the leading `len` of the 128 bits agree -/
+theorem ipMatch_v6 (a n l : Str) (x y len : Nat)
+    (ha : parseV6 a = some x) (hn : parseV6 n = some y) (hl : parsePrefix6 l = some len) :
+    ipMatch a (n ++ '/' :: l) = .ok (sameBlock 128 len x y) := by
+  simpa [Fam.width] using ipMatch_cidr a n l .v6 .v6 x y len (parseAddr_v6 a x ha) (parseAddr_v6 n y hn) hl
+
+/-- **ipMatch** on two IPv6 address texts: equality of the NUMBERS, whatever the spellings -/
+theorem ipMatch_v6_addr (a n : Str) (x y : Nat) (ha : parseV6 a = some x) (hn : parseV6 n = some y) :
+    ipMatch a n = .ok (x == y) := by
+  simpa using ipMatch_addr a n .v6 .v6 x y (parseAddr_v6 a x ha) (parseAddr_v6 n y hn)
+
+/-- an address of the other family is never in a block (also not an IPv4-mapped IPv6 address in an IPv4 block) -/
+theorem ipMatch_mixed (a n l : Str) (f g : Fam) (x y len : Nat) (ha : parseAddr a = some (f, x))
+    (hn : parseAddr n = some (g, y)) (hl : parsePrefixW g.width l = some len) (hfg : f ≠ g) :
+    ipMatch a (n ++ '/' :: l) = .ok false ∧ ipMatch a n = .ok false := by
+  have : (f == g) = false := by simpa using hfg
+  rw [ipMatch_cidr a n l f g x y len ha hn hl, ipMatch_addr a n f g x y ha hn, this]
+  simp
+
+/-- an unparsable first argument raises (`ipaddress.ip_address` is outside the `try`), and nothing else does -/
+theorem ipMatch_raises_iff (a b : Str) : ipMatch a b = .err .valueError ↔ parseAddr a = none := by
   unfold ipMatch
+  cases parseAddr a with
+  | none => simp
+  | some fx =>
+    obtain ⟨f, x⟩ := fx
+    simp only
+    cases parseNet4 b with
+    | some yl => cases f <;> simp
+    | none =>
+      simp only
+      cases parseNet6 b with
+      | some yl => cases f <;> simp
+      | none => simp
+
+theorem ipMatch_bad_address (a b : Str) (h4 : parseV4 a = none) (h6 : parseV6 a = none) :
+    ipMatch a b = .err .valueError := by
+  rw [ipMatch_raises_iff]; simp [parseAddr, h4, h6]
+
+/-- a pattern that is no network of either family matches nothing (`except ValueError: return ip1 == ip2` compares
+    an address object with a `str`) -/
+theorem ipMatch_bad_pattern (a b : Str) (f : Fam) (x : Nat) (ha : parseAddr a = some (f, x))
+    (h4 : parseNet4 b = none) (h6 : parseNet6 b = none) : ipMatch a b = .ok false := by
+  simp [ipMatch, ha, h4, h6]
+
+/-- the model answers for every pair of texts: nothing of `ip_match` is left unmodelled -/
+theorem ipMatch_total (a b : Str) : ipMatch a b ≠ .outside := by
+  unfold ipMatch
+  cases parseAddr a with
+  | none => simp
+  | some fx =>
+    obtain ⟨f, x⟩ := fx
+    simp only
+    cases parseNet4 b with
+    | some yl => cases f <;> simp
+    | none =>
+      simp only
+      cases parseNet6 b with
+      | some yl => cases f <;> simp
+      | none => simp
+
+/-! ### IPv6 text forms -/
+
+theorem hexVal_toUpper_aux : ∀ n, n < 123 → hexVal (Char.ofNat n).toUpper = hexVal (Char.ofNat n) := by decide
+theorem hexVal_toLower_aux : ∀ n, n < 91 → hexVal (Char.ofNat n).toLower = hexVal (Char.ofNat n) := by decide
+
+/-- hex digits are read case-insensitively (and no other character becomes a hex digit by changing its case) -/
+theorem hexVal_toUpper (c : Char) : hexVal c.toUpper = hexVal c := by
+  by_cases h : c.toNat < 123
+  · have := hexVal_toUpper_aux c.toNat h
+    rwa [Char.ofNat_toNat] at this
+  · have : c.toUpper = c := by
+      unfold Char.toUpper
+      rw [dif_neg]
+      intro ⟨_, h2⟩
+      apply h
+      have : c.val.toNat ≤ 122 := h2
+      show c.val.toNat < 123
+      omega
+    rw [this]
+
+theorem hexVal_toLower (c : Char) : hexVal c.toLower = hexVal c := by
+  by_cases h : c.toNat < 91
+  · have := hexVal_toLower_aux c.toNat h
+    rwa [Char.ofNat_toNat] at this
+  · have : c.toLower = c := by
+      unfold Char.toLower
+      rw [dif_neg]
+      intro ⟨_, h2⟩
+      apply h
+      have : c.val.toNat ≤ 90 := h2
+      show c.val.toNat < 91
+      omega
+    rw [this]
+
+theorem hexDigitsVal_map (f : Char → Char) (hf : ∀ c, hexVal (f c) = hexVal c) (s : Str) (acc : Nat) :
+    hexDigitsVal (s.map f) acc = hexDigitsVal s acc := by
+  induction s generalizing acc with
+  | nil => rfl
+  | cons c s ih => simp [hexDigitsVal, hf, ih]
+
+/-- `parseHextet` sees a text only through the values of its hex digits -/
+theorem parseHextet_map (f : Char → Char) (hf : ∀ c, hexVal (f c) = hexVal c) (s : Str) :
+    parseHextet (s.map f) = parseHextet s := by
+  have h1 : (s.map f).all isHexDigit = s.all isHexDigit := by
+    simp only [List.all_map, Function.comp_def, isHexDigit, hf]
+    rfl
+  simp only [parseHextet, h1, List.length_map, hexDigitsVal_map f hf, List.isEmpty_iff, List.map_eq_nil_iff]
+
+/-- upper-case and lower-case spellings of a hextet are the same number (or both invalid) -/
+theorem parseHextet_toUpper (s : Str) : parseHextet (s.map Char.toUpper) = parseHextet s :=
+  parseHextet_map _ hexVal_toUpper s
+
+theorem parseHextet_toLower (s : Str) : parseHextet (s.map Char.toLower) = parseHextet s :=
+  parseHextet_map _ hexVal_toLower s
+
+/-- a leading zero does not change a hextet (as long as at most 4 digits are written) -/
+theorem parseHextet_zero_cons (s : Str) (hs : s ≠ []) (hl : s.length < 4) :
+    parseHextet ('0' :: s) = parseHextet s := by
+  have h0 : isHexDigit '0' = true := by decide
+  have h0' : (hexVal '0').getD 0 = 0 := by decide
+  have h1 : ¬ (s.length + 1 > 4) := by omega
+  have h2 : ¬ (s.length > 4) := by omega
+  simp [parseHextet, h0, h0', h1, h2, hs, hexDigitsVal]
+
+/-- … but a fifth digit is an error even when it is a leading zero -/
+theorem parseHextet_five (s : Str) (hl : 4 < s.length) : parseHextet s = none := by
+  unfold parseHextet
+  split
+  · rfl
+  · simp [hl]
+
+theorem hexVal_lt (c : Char) (v : Nat) (h : hexVal c = some v) : v < 16 := by
+  unfold hexVal at h
+  simp only [Bool.and_eq_true, decide_eq_true_eq, Char.le_def, UInt32.le_iff_toNat_le] at h
+  have e : c.toNat = c.val.toNat := rfl
+  split at h
+  · rename_i hc
+    simp only [Option.some.injEq] at h
+    have : '9'.val.toNat = 57 := by decide
+    have : '0'.val.toNat = 48 := by decide
+    have : '0'.toNat = 48 := by decide
+    omega
+  · split at h
+    · rename_i hc
+      simp only [Option.some.injEq] at h
+      have : 'f'.val.toNat = 102 := by decide
+      have : 'a'.val.toNat = 97 := by decide
+      have : 'a'.toNat = 97 := by decide
+      omega
+    · split at h
+      · rename_i hc
+        simp only [Option.some.injEq] at h
+        have : 'F'.val.toNat = 70 := by decide
+        have : 'A'.val.toNat = 65 := by decide
+        have : 'A'.toNat = 65 := by decide
+        omega
+      · simp at h
+
+theorem hexDigitsVal_lt (s : Str) (acc k : Nat) (hs : s.all isHexDigit = true) (ha : acc < 16 ^ k) :
+    hexDigitsVal s acc < 16 ^ (k + s.length) := by
+  induction s generalizing acc k with
+  | nil => simpa [hexDigitsVal] using ha
+  | cons c s ih =>
+    simp only [List.all_cons, Bool.and_eq_true] at hs
+    simp only [hexDigitsVal, List.length_cons]
+    obtain ⟨v, hv⟩ := Option.isSome_iff_exists.1 hs.1
+    have hlt := hexVal_lt c v hv
+    have : acc * 16 + (hexVal c).getD 0 < 16 ^ (k + 1) := by
+      rw [hv, Option.getD_some, Nat.pow_succ]; omega
+    have := ih (acc * 16 + (hexVal c).getD 0) (k + 1) hs.2 this
+    rwa [show k + 1 + s.length = k + (s.length + 1) by omega] at this
+
+/-- a hextet is a 16-bit number -/
+theorem parseHextet_lt (s : Str) (v : Nat) (h : parseHextet s = some v) : v < 65536 := by
+  unfold parseHextet at h
+  split at h
+  · simp at h
+  · rename_i hd
+    split at h
+    · simp at h
+    · rename_i hl
+      split at h
+      · simp at h
+      · simp only [Option.some.injEq] at h
+        subst h
+        have := hexDigitsVal_lt s 0 0 (by simpa using hd) (by simp)
+        have h4 : (16 : Nat) ^ (0 + s.length) ≤ 16 ^ 4 := Nat.pow_le_pow_right (by decide) (by omega)
+        have : (16 : Nat) ^ 4 = 65536 := by decide
+        omega
+
+theorem parseHextet_chars (s : Str) (v : Nat) (h : parseHextet s = some v) :
+    s ≠ [] ∧ s.all isHexDigit = true := by
+  unfold parseHextet at h
+  split at h
+  · simp at h
+  · rename_i hd
+    split at h
+    · simp at h
+    · split at h
+      · simp at h
+      · rename_i hne
+        exact ⟨by simpa using hne, by simpa using hd⟩
+
+/-! ### parseV6: a 128-bit number -/
+
+/-- a part carries a 16-bit number (the two parts made from a dotted-quad suffix do by construction) -/
+def Part.small : Part → Prop
+  | .txt _ => True
+  | .num v => v < 65536
+
+theorem Part.val_lt (p : Part) (v : Nat) (hp : Part.small p) (h : p.val = some v) : v < 65536 := by
+  cases p with
+  | txt s => exact parseHextet_lt s v h
+  | num w => simp [Part.val] at h; subst h; exact hp
+
+theorem hextets_lt (ps : List Part) (acc k r : Nat) (hs : ∀ p ∈ ps, Part.small p) (ha : acc < 65536 ^ k)
+    (h : hextets acc ps = some r) : r < 65536 ^ (k + ps.length) := by
+  induction ps generalizing acc k with
+  | nil => simp [hextets] at h; subst h; simpa using ha
+  | cons p ps ih =>
+    simp only [hextets] at h
+    split at h
+    · simp at h
+    · rename_i v hv
+      have hlt := Part.val_lt p v (hs p (by simp)) hv
+      have : acc * 65536 + v < 65536 ^ (k + 1) := by rw [Nat.pow_succ]; omega
+      have := ih (acc * 65536 + v) (k + 1) (fun q hq => hs q (by simp [hq])) this h
+      rwa [show k + 1 + ps.length = k + (ps.length + 1) by omega] at this
+
+theorem breakEmpty_parts (m : List Part) :
+    (∀ p ∈ (breakEmpty m).1, p ∈ m) ∧ (∀ l, (breakEmpty m).2 = some l → ∀ p ∈ l, p ∈ m) := by
+  induction m with
+  | nil => simp [breakEmpty]
+  | cons q m ih =>
+    simp only [breakEmpty]
+    split
+    · simp only [List.not_mem_nil, false_imp_iff, implies_true, Option.some.injEq, true_and]
+      intro l hl p hp; subst hl; exact List.mem_cons_of_mem _ hp
+    · refine ⟨?_, ?_⟩
+      · intro p hp
+        simp only [List.mem_cons] at hp ⊢
+        rcases hp with rfl | hp
+        · exact Or.inl rfl
+        · exact Or.inr (ih.1 p hp)
+      · intro l hl p hp
+        exact List.mem_cons_of_mem _ (ih.2 l hl p hp)
+
+theorem parseV6Parts_lt (f : Part) (m : List Part) (l : Part) (x : Nat)
+    (hs : ∀ p ∈ f :: m ++ [l], Part.small p) (h : parseV6Parts f m l = some x) : x < 2 ^ 128 := by
+  have e128 : (2 : Nat) ^ 128 = 65536 ^ 8 := by decide
+  rw [e128]
+  unfold parseV6Parts at h
+  split at h
+  · simp at h
+  · split at h
+    · -- no '::'
+      split at h
+      · simp at h
+      · rename_i hlen
+        split at h
+        · simp at h
+        · split at h
+          · simp at h
+          · have := hextets_lt _ 0 0 x hs (by simp) h
+            have hl : (f :: m ++ [l]).length = 8 := by simp at hlen ⊢; omega
+            rwa [hl] at this
+    · rename_i hh ll hb
+      have hbp := breakEmpty_parts m
+      rw [hb] at hbp
+      split at h
+      · simp at h
+      · split at h
+        · simp at h
+        · split at h
+          · simp at h
+          · simp only at h
+            have shi : ∀ p ∈ (if f.isEmpty = true then [] else f :: hh), Part.small p := by
+              intro p hp
+              split at hp
+              · simp at hp
+              · simp only [List.mem_cons] at hp
+                rcases hp with rfl | hp
+                · exact hs _ (by simp)
+                · exact hs _ (by simp [hbp.1 p hp])
+            have slo : ∀ p ∈ (if l.isEmpty = true then [] else ll ++ [l]), Part.small p := by
+              intro p hp
+              split at hp
+              · simp at hp
+              · simp only [List.mem_append, List.mem_singleton] at hp
+                rcases hp with hp | rfl
+                · exact hs _ (by simp [hbp.2 ll rfl p hp])
+                · exact hs _ (by simp)
+            generalize (if f.isEmpty = true then [] else f :: hh) = hi at h shi
+            generalize (if l.isEmpty = true then [] else ll ++ [l]) = lo at h slo
+            split at h
+            · simp at h
+            · rename_i hlen
+              split at h
+              · simp at h
+              · rename_i xh hxh
+                have h1 := hextets_lt _ 0 0 xh shi (by simp) hxh
+                simp only [Nat.zero_add] at h1
+                have h2 : xh * 65536 ^ (8 - (hi.length + lo.length)) < 65536 ^ (hi.length + (8 - (hi.length + lo.length))) := by
+                  rw [Nat.pow_add]
+                  exact Nat.mul_lt_mul_of_lt_of_le h1 (Nat.le_refl _) (Nat.pow_pos (by decide))
+                have h3 := hextets_lt lo _ _ x slo h2 h
+                rwa [show hi.length + (8 - (hi.length + lo.length)) + lo.length = 8 by omega] at h3
+
+theorem ends_mem (ps : List Part) (f : Part) (m : List Part) (l : Part) (h : ends ps = some (f, m, l)) :
+    ps = f :: m ++ [l] := by
+  induction ps generalizing f m l with
+  | nil => simp [ends] at h
+  | cons p ps ih =>
+    cases ps with
+    | nil => simp [ends] at h
+    | cons q r =>
+      simp only [ends] at h
+      split at h
+      · rename_i he
+        simp only [Option.some.injEq, Prod.mk.injEq] at h
+        obtain ⟨rfl, rfl, rfl⟩ := h
+        cases r with
+        | nil => rfl
+        | cons r0 r1 =>
+          exfalso
+          simp only [ends] at he
+          split at he <;> simp at he
+      · rename_i q' m' l' he
+        simp only [Option.some.injEq, Prod.mk.injEq] at h
+        obtain ⟨rfl, rfl, rfl⟩ := h
+        rw [ih q' m' l' he]; rfl
+
+theorem parseV6Core_lt (s : Str) (x : Nat) (h : parseV6Core s = some x) : x < 2 ^ 128 := by
+  unfold parseV6Core at h
+  split at h
+  · simp at h
+  · simp only at h
+    split at h
+    · simp at h
+    · split at h
+      · simp at h
+      · rename_i parts hparts
+        split at h
+        · simp at h
+        · rename_i f m l he
+          have hps := ends_mem parts f m l he
+          apply parseV6Parts_lt f m l x _ h
+          rw [← hps]
+          split at hparts
+          · split at hparts
+            · simp at hparts
+            · rename_i v hv
+              simp only [Option.some.injEq] at hparts
+              subst hparts
+              intro p hp
+              simp only [List.mem_append, List.mem_map, List.mem_cons, List.not_mem_nil, or_false] at hp
+              rcases hp with ⟨w, _, rfl⟩ | rfl | rfl
+              · trivial
+              · exact Nat.mod_lt _ (by decide)
+              · exact Nat.mod_lt _ (by decide)
+          · simp only [Option.some.injEq] at hparts
+            subst hparts
+            intro p hp
+            simp only [List.mem_map] at hp
+            obtain ⟨w, _, rfl⟩ := hp
+            trivial
+
+/-- every IPv6 address text denotes a 128-bit number -/
+theorem parseV6_lt (s : Str) (x : Nat) (h : parseV6 s = some x) : x < 2 ^ 128 := by
+  unfold parseV6 at h
+  split at h
+  · simp at h
+  · split at h
+    · simp at h
+    · exact parseV6Core_lt _ x h
+
+/-! ### parseV6 reads the RFC 4291 text forms: `h:h:h:h:h:h:h:h` and `h:…::…:h` -/
+
+/-- the text `h1:h2:…:hn` -/
+def joinColon : List Str → Str
+  | [] => []
+  | [h] => h
+  | h :: g :: hs => h ++ ':' :: joinColon (g :: hs)
+
+/-- the number written by a sequence of 16-bit groups, most significant first -/
+def groupsVal (vs : List Nat) : Nat := vs.foldl (fun acc v => acc * 65536 + v) 0
+
+/-- splitting at a separator splits the pieces -/
+theorem splitOn_append_sep (sep : Char) (a b : Str) :
+    splitOn sep (a ++ sep :: b) = splitOn sep a ++ splitOn sep b := by
+  induction a with
+  | nil => simp [splitOn]
+  | cons c a ih =>
+    simp only [List.cons_append, splitOn]
+    split
+    · simp [ih]
+    · rw [ih]
+      cases h : splitOn sep a with
+      | nil => exact absurd h (splitOn_ne_nil sep a)
+      | cons w ws => simp
+
+theorem splitOn_joinColon (hs : List Str) (hne : hs ≠ []) (hc : ∀ h ∈ hs, ':' ∉ h) :
+    splitOn ':' (joinColon hs) = hs := by
+  induction hs with
+  | nil => exact absurd rfl hne
+  | cons h hs ih =>
+    cases hs with
+    | nil => simpa [joinColon] using splitOn_not_mem ':' h (hc h (by simp))
+    | cons g hs =>
+      simp only [joinColon]
+      rw [splitOn_append_sep, splitOn_not_mem ':' h (hc h (by simp)), ih (by simp) (fun k hk => hc k (by simp [hk]))]
+      rfl
+
+theorem mem_joinColon (hs : List Str) (c : Char) (h : c ∈ joinColon hs) : c = ':' ∨ ∃ w ∈ hs, c ∈ w := by
+  induction hs with
+  | nil => simp [joinColon] at h
+  | cons w hs ih =>
+    cases hs with
+    | nil => exact Or.inr ⟨w, by simp, by simpa [joinColon] using h⟩
+    | cons g hs =>
+      simp only [joinColon, List.mem_append, List.mem_cons] at h
+      rcases h with h | h | h
+      · exact Or.inr ⟨w, by simp, h⟩
+      · exact Or.inl h
+      · rcases ih h with h | ⟨k, hk, hck⟩
+        · exact Or.inl h
+        · exact Or.inr ⟨k, by simp [hk], hck⟩
+
+/-- the hextet texts `hs` are valid and denote the numbers `vs` -/
+def Hextets (hs : List Str) (vs : List Nat) : Prop := hs.map parseHextet = vs.map some
+
+theorem Hextets.length {hs : List Str} {vs : List Nat} (h : Hextets hs vs) : hs.length = vs.length := by
+  have := congrArg List.length h
+  simpa using this
+
+theorem Hextets.mem {hs : List Str} {vs : List Nat} (h : Hextets hs vs) (w : Str) (hw : w ∈ hs) :
+    ∃ v, parseHextet w = some v := by
+  have : parseHextet w ∈ vs.map some := by rw [← h]; exact List.mem_map_of_mem hw
+  simp only [List.mem_map] at this
+  obtain ⟨v, _, hv⟩ := this
+  exact ⟨v, hv.symm⟩
+
+theorem Hextets.not_mem {hs : List Str} {vs : List Nat} (h : Hextets hs vs) (c : Char) (hc : isHexDigit c = false)
+    (w : Str) (hw : w ∈ hs) : c ∉ w := by
+  obtain ⟨v, hv⟩ := h.mem w hw
+  exact not_mem_of_all _ _ _ (parseHextet_chars w v hv).2 hc
+
+theorem Hextets.ne_nil {hs : List Str} {vs : List Nat} (h : Hextets hs vs) (w : Str) (hw : w ∈ hs) : w ≠ [] := by
+  obtain ⟨v, hv⟩ := h.mem w hw
+  exact (parseHextet_chars w v hv).1
+
+theorem Hextets.joinColon_not_mem {hs : List Str} {vs : List Nat} (h : Hextets hs vs) (c : Char)
+    (hc : isHexDigit c = false) (hc' : c ≠ ':') : c ∉ joinColon hs := by
+  intro hm
+  rcases mem_joinColon hs c hm with e | ⟨w, hw, hcw⟩
+  · exact hc' e
+  · exact h.not_mem c hc w hw hcw
+
+theorem hextets_txt (hs : List Str) (vs : List Nat) (h : Hextets hs vs) (acc : Nat) :
+    hextets acc (hs.map Part.txt) = some (vs.foldl (fun a v => a * 65536 + v) acc) := by
+  induction hs generalizing vs acc with
+  | nil =>
+    cases vs with
+    | nil => rfl
+    | cons v vs => simp [Hextets] at h
+  | cons w hs ih =>
+    cases vs with
+    | nil => simp [Hextets] at h
+    | cons v vs =>
+      simp only [Hextets, List.map_cons, List.cons.injEq] at h
+      simp only [List.map_cons, hextets, Part.val, h.1, List.foldl_cons]
+      exact ih vs h.2 _
+
+theorem breakEmpty_none (m : List Part) (h : ∀ p ∈ m, p.isEmpty = false) : breakEmpty m = (m, none) := by
+  induction m with
+  | nil => rfl
+  | cons p m ih =>
+    simp only [breakEmpty, h p (by simp), Bool.false_eq_true, if_false,
+      ih (fun q hq => h q (by simp [hq]))]
+
+theorem breakEmpty_some (hh ll : List Part) (h : ∀ p ∈ hh, p.isEmpty = false) :
+    breakEmpty (hh ++ Part.txt [] :: ll) = (hh, some ll) := by
+  induction hh with
+  | nil => simp [breakEmpty, Part.isEmpty]
+  | cons p m ih =>
+    simp only [List.cons_append, breakEmpty, h p (by simp), Bool.false_eq_true, if_false,
+      ih (fun q hq => h q (by simp [hq]))]
+
+theorem ends_cons_append (p : Part) (m : List Part) (q : Part) : ends (p :: m ++ [q]) = some (p, m, q) := by
+  induction m generalizing p with
+  | nil => simp [ends]
+  | cons r m ih =>
+    have := ih r
+    simp only [List.cons_append] at this ⊢
+    cases hm : m ++ [q] with
+    | nil => simp at hm
+    | cons a b =>
+      rw [hm] at this
+      simp only [ends] at this ⊢
+      simp only [this]
+
+theorem txt_nonempty {hs : List Str} {vs : List Nat} (h : Hextets hs vs) :
+    ∀ p ∈ hs.map Part.txt, p.isEmpty = false := by
+  intro p hp
+  simp only [List.mem_map] at hp
+  obtain ⟨w, hw, rfl⟩ := hp
+  have := h.ne_nil w hw
+  simpa [Part.isEmpty] using this
+
+theorem foldl_zeros (k acc : Nat) :
+    (List.replicate k 0).foldl (fun a v => a * 65536 + v) acc = acc * 65536 ^ k := by
+  induction k generalizing acc with
+  | zero => simp
+  | succ k ih => simp [List.replicate_succ, ih, Nat.pow_succ, Nat.mul_assoc, Nat.mul_comm 65536]
+
+/-- a text without '/' and '%' is read by `_ip_int_from_string` directly -/
+theorem parseV6_plain (s : Str) (h1 : '/' ∉ s) (h2 : '%' ∉ s) : parseV6 s = parseV6Core s := by
+  simp [parseV6, h1, splitScope, splitOn_not_mem _ _ h2]
+
+theorem exists_snoc {α : Type} (l : List α) (h : l ≠ []) : ∃ m q, l = m ++ [q] :=
+  ⟨l.dropLast, l.getLast h, (List.dropLast_concat_getLast h).symm⟩
+
+/-- **the full form**: eight valid hextets separated by colons denote the number they write, 16 bits each -/
+theorem parseV6_full (hs : List Str) (vs : List Nat) (hv : Hextets hs vs) (hlen : hs.length = 8) :
+    parseV6 (joinColon hs) = some (groupsVal vs) := by
+  have hne : hs ≠ [] := by intro e; simp [e] at hlen
+  have hcol : ∀ h ∈ hs, ':' ∉ h := hv.not_mem ':' (by decide)
+  rw [parseV6_plain _ (hv.joinColon_not_mem '/' (by decide) (by decide))
+    (hv.joinColon_not_mem '%' (by decide) (by decide))]
+  obtain ⟨h0, tl, rfl⟩ := List.exists_cons_of_ne_nil hne
+  have htl : tl ≠ [] := by intro e; simp [e] at hlen
+  obtain ⟨mid, h7, rfl⟩ := exists_snoc tl htl
+  have hdot : h7.contains '.' = false := by
+    have := hv.not_mem '.' (by decide) h7 (by simp)
+    simpa using this
+  have hj : joinColon (h0 :: (mid ++ [h7])) ≠ [] := by
+    intro e
+    have := splitOn_joinColon _ hne hcol
+    rw [e] at this
+    simp [splitOn] at this
+  unfold parseV6Core
+  simp only [List.isEmpty_iff, hj, if_false, splitOn_joinColon _ hne hcol]
+  have hl3 : ¬ (h0 :: (mid ++ [h7])).length < 3 := by simp at hlen ⊢; omega
+  rw [if_neg hl3]
+  have hlast : (h0 :: (mid ++ [h7])).getLast?.getD [] = h7 := by
+    rw [← List.cons_append, List.getLast?_append]; simp
+  simp only [hlast, hdot, Bool.false_eq_true, if_false]
+  have hends : ends ((h0 :: (mid ++ [h7])).map Part.txt) = some (Part.txt h0, mid.map Part.txt, Part.txt h7) := by
+    simpa using ends_cons_append (Part.txt h0) (mid.map Part.txt) (Part.txt h7)
+  simp only [hends]
+  have hnon := txt_nonempty hv
+  have hmid : ∀ p ∈ mid.map Part.txt, p.isEmpty = false := fun p hp => hnon p (by
+    simp only [List.map_cons, List.map_append, List.mem_cons, List.mem_append]; exact Or.inr (Or.inl hp))
+  have hm6 : mid.length = 6 := by simp at hlen; omega
+  unfold parseV6Parts
+  simp only [breakEmpty_none _ hmid, List.length_map, hm6]
+  have e0 : (Part.txt h0).isEmpty = false := hnon _ (by simp)
+  have e7 : (Part.txt h7).isEmpty = false := hnon _ (by simp)
+  simp only [e0, e7]
+  have := hextets_txt _ vs hv 0
+  simpa [groupsVal] using this
+
+theorem parseV6Core_of_split (s : Str) (ps : List Str) (hs : s ≠ []) (hps : splitOn ':' s = ps)
+    (h3 : 3 ≤ ps.length) (ini : List Str) (lastS : Str) (hlast : ps = ini ++ [lastS])
+    (hdot' : lastS.contains '.' = false) (f : Part) (m : List Part) (l : Part)
+    (he : ps.map Part.txt = f :: m ++ [l]) : parseV6Core s = parseV6Parts f m l := by
+  have hdot : (ps.getLast?.getD []).contains '.' = false := by
+    rw [hlast, List.getLast?_append]; simpa using hdot'
+  unfold parseV6Core
+  have h3' : ¬ ps.length < 3 := by omega
+  simp only [List.isEmpty_iff, hs, if_false, hps]
+  rw [if_neg h3']
+  simp only [hdot, Bool.false_eq_true, if_false, he, ends_cons_append]
+
+theorem any_isEmpty_false (m : List Part) (h : ∀ p ∈ m, p.isEmpty = false) : m.any Part.isEmpty = false := by
+  induction m with
+  | nil => rfl
+  | cons p m ih => simp [h p (by simp), ih (fun q hq => h q (by simp [hq]))]
+
+/-- **the compressed form**: `::` stands for the zero groups that make up eight; it may be at the start, in the
+    middle or at the end, at most 7 groups are written. (`groupsVal (vh ++ zeros ++ vl)` is the number the full
+    form of the same eight groups denotes, `parseV6_full`.) -/
+theorem parseV6_compressed (hs ls : List Str) (vh vl : List Nat) (hh : Hextets hs vh) (hl : Hextets ls vl)
+    (hlen : hs.length + ls.length ≤ 7) :
+    parseV6 (joinColon hs ++ ':' :: ':' :: joinColon ls) =
+      some (groupsVal (vh ++ List.replicate (8 - (hs.length + ls.length)) 0 ++ vl)) := by
+  have hs1 : ∀ c, isHexDigit c = false → c ≠ ':' → c ∉ joinColon hs ++ ':' :: ':' :: joinColon ls := by
+    intro c h1 h2
+    simp only [List.mem_append, List.mem_cons, not_or]
+    exact ⟨hh.joinColon_not_mem c h1 h2, h2, h2, hl.joinColon_not_mem c h1 h2⟩
+  rw [parseV6_plain _ (hs1 '/' (by decide) (by decide)) (hs1 '%' (by decide) (by decide))]
+  have hne : joinColon hs ++ ':' :: ':' :: joinColon ls ≠ [] := by simp
+  have hsplit : splitOn ':' (joinColon hs ++ ':' :: ':' :: joinColon ls) =
+      splitOn ':' (joinColon hs) ++ [] :: splitOn ':' (joinColon ls) := by
+    rw [splitOn_append_sep]; simp [splitOn]
+  have hnh := txt_nonempty hh
+  have hnl := txt_nonempty hl
+  have hgv : ∀ k, groupsVal (vh ++ List.replicate k 0 ++ vl) =
+      vl.foldl (fun a v => a * 65536 + v) (vh.foldl (fun a v => a * 65536 + v) 0 * 65536 ^ k) := by
+    intro k; simp [groupsVal, List.foldl_append, foldl_zeros]
+  rw [hgv]
+  cases hs with
+  | nil =>
+    have hvh : vh = [] := by have := hh.length; simpa using this.symm
+    subst hvh
+    cases List.eq_nil_or_concat ls with
+    | inl hls =>
+      subst hls
+      have hvl : vl = [] := by have := hl.length; simpa using this.symm
+      subst hvl
+      rw [parseV6Core_of_split _ _ hne hsplit (by simp [joinColon, splitOn]) [[], []] [] (by simp [joinColon, splitOn])
+        (by simp) (Part.txt []) [Part.txt []] (Part.txt []) (by simp [joinColon, splitOn])]
+      simp [parseV6Parts, breakEmpty, Part.isEmpty, hextets]
+    | inr hls =>
+      obtain ⟨ls', q, rfl⟩ := hls
+      simp only [List.concat_eq_append] at *
+      have hcl : ∀ h ∈ ls' ++ [q], ':' ∉ h := hl.not_mem ':' (by decide)
+      have hsj := splitOn_joinColon (ls' ++ [q]) (by simp) hcl
+      have hdot : q.contains '.' = false := by
+        have := hl.not_mem '.' (by decide) q (by simp); simpa using this
+      have hq : (Part.txt q).isEmpty = false := hnl _ (by simp)
+      have hqn : q ≠ [] := hl.ne_nil q (by simp)
+      have hl' : ∀ p ∈ ls'.map Part.txt, p.isEmpty = false := fun p hp => hnl p (by
+        simp only [List.map_append, List.mem_append]; exact Or.inl hp)
+      rw [parseV6Core_of_split _ _ hne hsplit (by simp [joinColon, splitOn, hsj])
+        ([] :: [] :: ls') q (by simp [joinColon, splitOn, hsj]) hdot
+        (Part.txt []) (Part.txt [] :: ls'.map Part.txt) (Part.txt q) (by simp [joinColon, splitOn, hsj])]
+      have hb := breakEmpty_some [] (ls'.map Part.txt) (by simp)
+      simp only [List.nil_append] at hb
+      have h9 : ¬ (ls'.length + 1 + 2 > 9) := by simp at hlen; omega
+      have h7 : ¬ (ls'.length + 1 > 7) := by simp at hlen; omega
+      have hx := hextets_txt _ vl hl 0
+      simp only [List.map_append, List.map_cons, List.map_nil] at hx
+      simp [parseV6Parts, hb, any_isEmpty_false _ hl', hq, hqn, Part.isEmpty, h9, h7, hextets, hx]
+  | cons p hs' =>
+    have hch : ∀ h ∈ p :: hs', ':' ∉ h := hh.not_mem ':' (by decide)
+    have hsjh := splitOn_joinColon (p :: hs') (by simp) hch
+    have hp : (Part.txt p).isEmpty = false := hnh _ (by simp)
+    have hpn : p ≠ [] := hh.ne_nil p (by simp)
+    have hh' : ∀ q ∈ hs'.map Part.txt, q.isEmpty = false := fun q hq => hnh q (by
+      simp only [List.map_cons, List.mem_cons]; exact Or.inr hq)
+    have hxh := hextets_txt _ vh hh 0
+    simp only [List.map_cons] at hxh
+    cases List.eq_nil_or_concat ls with
+    | inl hls =>
+      subst hls
+      have hvl : vl = [] := by have := hl.length; simpa using this.symm
+      subst hvl
+      rw [parseV6Core_of_split _ _ hne hsplit (by simp [joinColon, splitOn, hsjh])
+        (p :: hs' ++ [[]]) [] (by simp [joinColon, splitOn, hsjh]) (by simp)
+        (Part.txt p) (hs'.map Part.txt ++ [Part.txt []]) (Part.txt []) (by simp [joinColon, splitOn, hsjh])]
+      have hb := breakEmpty_some (hs'.map Part.txt) [] hh'
+      have h9 : ¬ (hs'.length + 1 + 2 > 9) := by simp at hlen; omega
+      have h7 : ¬ (hs'.length + 1 > 7) := by simp at hlen; omega
+      simp [parseV6Parts, hb, hp, hpn, Part.isEmpty, h9, h7, hextets, hxh]
+    | inr hls =>
+      obtain ⟨ls', q, rfl⟩ := hls
+      simp only [List.concat_eq_append] at *
+      have hcl : ∀ h ∈ ls' ++ [q], ':' ∉ h := hl.not_mem ':' (by decide)
+      have hsj := splitOn_joinColon (ls' ++ [q]) (by simp) hcl
+      have hdot : q.contains '.' = false := by
+        have := hl.not_mem '.' (by decide) q (by simp); simpa using this
+      have hq : (Part.txt q).isEmpty = false := hnl _ (by simp)
+      have hqn : q ≠ [] := hl.ne_nil q (by simp)
+      have hl' : ∀ p ∈ ls'.map Part.txt, p.isEmpty = false := fun p hp => hnl p (by
+        simp only [List.map_append, List.mem_append]; exact Or.inl hp)
+      rw [parseV6Core_of_split _ _ hne hsplit (by simp [joinColon, splitOn, hsjh, hsj]; omega)
+        (p :: hs' ++ [] :: ls') q (by simp [joinColon, splitOn, hsjh, hsj]) hdot
+        (Part.txt p) (hs'.map Part.txt ++ Part.txt [] :: ls'.map Part.txt) (Part.txt q)
+        (by simp [joinColon, splitOn, hsjh, hsj])]
+      have hb := breakEmpty_some (hs'.map Part.txt) (ls'.map Part.txt) hh'
+      have h9 : ¬ (hs'.length + (ls'.length + 1) + 2 > 9) := by simp at hlen; omega
+      have h7 : ¬ (hs'.length + 1 + (ls'.length + 1) > 7) := by simp at hlen; omega
+      have hx := hextets_txt _ vl hl
+      simp only [List.map_append, List.map_cons, List.map_nil] at hx
+      simp [parseV6Parts, hb, any_isEmpty_false _ hl', hp, hq, hpn, hqn, Part.isEmpty, h9, h7, hextets, hxh, hx]
+
+/-! ### consequences: spellings of one address; zones -/
+
+theorem Hextets.append {a b : List Str} {va vb : List Nat} (ha : Hextets a va) (hb : Hextets b vb) :
+    Hextets (a ++ b) (va ++ vb) := by
+  unfold Hextets at *; simp [ha, hb]
+
+theorem Hextets.zeros (k : Nat) : Hextets (List.replicate k ['0']) (List.replicate k 0) := by
+  have : parseHextet ['0'] = some 0 := by decide
+  unfold Hextets; simp [List.map_replicate, this]
+
+/-- `::` is an abbreviation: the compressed form and the full form with `0` groups written out are the same
+    address -/
+theorem parseV6_compressed_eq_full (hs ls : List Str) (vh vl : List Nat) (hh : Hextets hs vh) (hl : Hextets ls vl)
+    (hlen : hs.length + ls.length ≤ 7) :
+    parseV6 (joinColon hs ++ ':' :: ':' :: joinColon ls) =
+      parseV6 (joinColon (hs ++ List.replicate (8 - (hs.length + ls.length)) ['0'] ++ ls)) := by
+  rw [parseV6_compressed hs ls vh vl hh hl hlen,
+    parseV6_full _ _ ((hh.append (Hextets.zeros _)).append hl) (by simp; omega)]
+
+/-- the spelling of the groups does not matter (letter case, leading zeros, …): full forms whose groups denote
+    the same numbers are the same address -/
+theorem parseV6_full_congr (hs hs' : List Str) (vs : List Nat) (h : Hextets hs vs) (h' : Hextets hs' vs)
+    (hlen : hs.length = 8) : parseV6 (joinColon hs) = parseV6 (joinColon hs') := by
+  rw [parseV6_full hs vs h hlen, parseV6_full hs' vs h' (by rw [h'.length, ← h.length, hlen])]
+
+theorem Hextets.upper {hs : List Str} {vs : List Nat} (h : Hextets hs vs) :
+    Hextets (hs.map (List.map Char.toUpper)) vs := by
+  unfold Hextets at *
+  rw [← h, List.map_map]
+  apply List.map_congr_left
+  intro w _
+  exact parseHextet_toUpper w
+
+theorem Hextets.lower {hs : List Str} {vs : List Nat} (h : Hextets hs vs) :
+    Hextets (hs.map (List.map Char.toLower)) vs := by
+  unfold Hextets at *
+  rw [← h, List.map_map]
+  apply List.map_congr_left
+  intro w _
+  exact parseHextet_toLower w
+
+/-- an address written in capitals is the same address (full and compressed forms) -/
+theorem parseV6_upper (hs ls : List Str) (vh vl : List Nat) (hh : Hextets hs vh) (hl : Hextets ls vl) :
+    (hs.length = 8 → parseV6 (joinColon (hs.map (List.map Char.toUpper))) = parseV6 (joinColon hs)) ∧
+    (hs.length + ls.length ≤ 7 →
+      parseV6 (joinColon (hs.map (List.map Char.toUpper)) ++ ':' :: ':' :: joinColon (ls.map (List.map Char.toUpper))) =
+        parseV6 (joinColon hs ++ ':' :: ':' :: joinColon ls)) := by
+  refine ⟨fun h8 => ?_, fun h7 => ?_⟩
+  · exact parseV6_full_congr _ _ vh hh.upper hh (by simpa using h8)
+  · rw [parseV6_compressed _ _ vh vl hh.upper hl.upper (by simpa using h7),
+      parseV6_compressed hs ls vh vl hh hl h7]
+    simp
+
+/-- a zone (`%eth0`) is accepted after an address and plays no part in its number -/
+theorem parseV6_zone (s z : Str) (hs : '%' ∉ s) (hz : z ≠ []) (hz1 : '%' ∉ z) (hz2 : '/' ∉ z) :
+    parseV6 (s ++ '%' :: z) = parseV6 s := by
+  unfold parseV6
+  have hc : (s ++ '%' :: z).contains '/' = s.contains '/' := by
+    have : ¬ ('/' = '%') := by decide
+    simp [hz2, this]
   rw [hc]
-  simp only [Bool.false_eq_true, if_false, ha, splitOn_not_mem _ _ h4, hn]
+  split
+  · rfl
+  · simp [splitScope, splitOn_append _ _ _ hs, splitOn_not_mem _ _ hz1, splitOn_not_mem _ _ hs, hz]
 
-/-- an unparsable first argument raises (`ipaddress.ip_address` is outside the `try`) -/
-theorem ipMatch_bad_address (a b : Str) (h1 : a.contains ':' = false) (h2 : b.contains ':' = false)
-    (ha : parseV4 a = none) : ipMatch a b = .err .valueError := by
-  unfold ipMatch
-  rw [h1, h2]
-  simp [ha]
+/-- an empty zone is an error -/
+theorem parseV6_zone_empty (s : Str) (hs : '%' ∉ s) : parseV6 (s ++ ['%']) = none := by
+  unfold parseV6
+  split
+  · rfl
+  · simp [splitScope, splitOn_append _ _ _ hs, splitOn]
 
+/-- a second '%' is an error -/
+theorem parseV6_zone_twice (s z z' : Str) (hs : '%' ∉ s) (hz : '%' ∉ z) :
+    parseV6 (s ++ '%' :: (z ++ '%' :: z')) = none := by
+  unfold parseV6
+  split
+  · rfl
+  · have : splitOn '%' (s ++ '%' :: (z ++ '%' :: z')) = s :: z :: splitOn '%' z' := by
+      rw [splitOn_append _ _ _ hs, splitOn_append _ _ _ hz]
+    cases h : splitOn '%' z' with
+    | nil => exact absurd h (splitOn_ne_nil _ _)
+    | cons w ws => simp [splitScope, this, h]
+
+/-! non-vacuity and the corners, by evaluation -/
 example : parseV4 "192.168.2.123".toList = some 3232236155 := by decide
 example : ipMatch "192.168.2.123".toList "192.168.2.0/24".toList = .ok true := by decide
 example : ipMatch "192.168.3.1".toList "192.168.2.0/24".toList = .ok false := by decide
+example : parseV6 "::".toList = some 0 := by decide
+example : parseV6 "::1".toList = some 1 := by decide
+example : parseV6 "1::".toList = some (2 ^ 112) := by decide
+example : parseV6 "2001:db8::1".toList = some 0x20010db8000000000000000000000001 := by decide
+example : parseV6 "2001:DB8:0:0:0:0:0:1".toList = parseV6 "2001:db8::1".toList := by decide
+example : parseV6 "2001:0db8:0000:0000:0000:0000:0000:0001".toList = parseV6 "2001:db8::1".toList := by decide
+example : parseV6 "::ffff:1.2.3.4".toList = some 0xffff01020304 := by decide
+example : parseV6 "::ffff:1.2.3.4".toList = parseV6 "::ffff:102:304".toList := by decide
+example : parseV6 "fe80::1%eth0".toList = parseV6 "fe80::1".toList := by decide
+example : parseV6 "1:2:3:4:5:6:7::".toList = parseV6 "1:2:3:4:5:6:7:0".toList := by decide
+example : parseV6 ":::".toList = none := by decide
+example : parseV6 "1::2::3".toList = none := by decide
+example : parseV6 "12345::".toList = none := by decide
+example : parseV6 "g::".toList = none := by decide
+example : parseV6 "::%".toList = none := by decide
+example : parseV6 "::1%a%b".toList = none := by decide
+example : parseV6 "1:2:3:4:5:6:7:8:9".toList = none := by decide
+example : parseV6 "1::3:4:5:6:7:8:9".toList = none := by decide
+example : parseV6 ":1:2:3:4:5:6:7".toList = none := by decide
+example : parseV6 "1:2:3:4:5:6:7:".toList = none := by decide
+example : parseV6 "::1/64".toList = none := by decide
+example : parseV6 "::01.2.3.4".toList = none := by decide
+example : parseV6 "1.2.3.4".toList = none := by decide
+example : Hextets ["2001".toList, "db8".toList] [0x2001, 0xdb8] := by unfold Hextets; decide
+example : joinColon ["2001".toList, "db8".toList] ++ ':' :: ':' :: joinColon ["1".toList] = "2001:db8::1".toList := by
+  decide
+
+example : ipMatch "2001:db8::1".toList "2001:DB8:0:0:0:0:0:1".toList = .ok true := by decide
+example : ipMatch "2001:db8:0:1::9".toList "2001:db8:0:1::/64".toList = .ok true := by decide
+example : ipMatch "2001:db8:0:2::9".toList "2001:db8:0:1::/64".toList = .ok false := by decide
+example : ipMatch "2001:db8:0:1::9".toList "2001:db8:0:1:ffff::5/64".toList = .ok true := by decide
+example : ipMatch "fe80::1%eth0".toList "fe80::%eth1/10".toList = .ok true := by decide
+example : ipMatch "2001:db8::1".toList "::/0".toList = .ok true := by decide
+example : ipMatch "10.0.0.1".toList "::/0".toList = .ok false := by decide
+example : ipMatch "::ffff:10.0.0.1".toList "10.0.0.0/8".toList = .ok false := by decide
+example : ipMatch "::1".toList "::1/129".toList = .ok false := by decide
+example : ipMatch "::1".toList "::1/ 64".toList = .ok false := by decide
+example : ipMatch "::1".toList "::1/64/64".toList = .ok false := by decide
+example : ipMatch "::1".toList "::1/".toList = .ok false := by decide
+example : ipMatch "::1".toList "::1/ffff::".toList = .ok false := by decide
+example : ipMatch ":::".toList "::/0".toList = .err .valueError := by decide
+example : ipMatch "10.1.2.3".toList "10.1.0.0/255.255.0.0".toList = .ok true := by decide
+example : ipMatch "10.1.2.3".toList "10.1.0.0/0.0.255.255".toList = .ok true := by decide
+example : ipMatch "10.1.2.3".toList "10.1.0.0/255.0.255.0".toList = .ok false := by decide
+example : ipSpec "2001:db8::1".toList "2001:DB8::/32".toList = some true := by decide
+example : ipSpec "10.0.0.1".toList "2001:DB8::/32".toList = some false := by decide
+example : ipSpec "2001:db8::1".toList "2001:DB8::/129".toList = none := by decide
+
+/-! ### the dotted-quad suffix -/
+
+theorem parseOctet_le (w : Str) (v : Nat) (h : parseOctet w = some v) : v ≤ 255 := by
+  unfold parseOctet at h
+  split at h
+  · simp at h
+  · split at h
+    · simp at h
+    · split at h
+      · simp at h
+      · split at h
+        · simp at h
+        · simp only at h
+          split at h
+          · simp at h
+          · simp at h; omega
+
+/-- an IPv4 address text denotes a 32-bit number and contains a dot -/
+theorem parseV4_lt (s : Str) (v : Nat) (h : parseV4 s = some v) : v < 2 ^ 32 ∧ '.' ∈ s := by
+  refine ⟨?_, ?_⟩
+  · unfold parseV4 at h
+    split at h
+    · split at h
+      · rename_i va vb vc vd ha hb hc hd
+        simp at h
+        have := parseOctet_le _ _ ha
+        have := parseOctet_le _ _ hb
+        have := parseOctet_le _ _ hc
+        have := parseOctet_le _ _ hd
+        omega
+      · simp at h
+    · simp at h
+  · apply Classical.byContradiction
+    intro hn
+    unfold parseV4 at h
+    rw [splitOn_not_mem _ _ hn] at h
+    simp at h
+
+/-- **the IPv4-mapped form** `::ffff:a.b.c.d` denotes `0xffff` followed by the 32 bits of the IPv4 address
+    (it stays an IPv6 address: `ipMatch_mixed`) -/
+theorem parseV6_mapped (d : Str) (v : Nat) (h : parseV4 d = some v) :
+    parseV6 ("::ffff:".toList ++ d) = some (0xffff * 2 ^ 32 + v) := by
+  have hc := parseV4_chars d v h
+  have h1 : ':' ∉ d := not_mem_of_all _ _ _ hc (by decide)
+  have h2 : '/' ∉ d := not_mem_of_all _ _ _ hc (by decide)
+  have h3 : '%' ∉ d := not_mem_of_all _ _ _ hc (by decide)
+  obtain ⟨hlt, hdot⟩ := parseV4_lt d v h
+  have hdot' : d.contains '.' = true := by simpa using hdot
+  rw [parseV6_plain _ (by simp [h2]) (by simp [h3])]
+  have hsp : splitOn ':' ("::ffff:".toList ++ d) = [[], [], "ffff".toList, d] := by
+    simp [splitOn, splitOn_not_mem _ _ h1]
+  unfold parseV6Core
+  rw [hsp]
+  have hf : parseHextet ['f', 'f', 'f', 'f'] = some 65535 := by decide
+  simp [hdot, h, ends, parseV6Parts, breakEmpty, Part.isEmpty, hextets, Part.val, hf]
+  omega
+
+example : parseV6 "::ffff:10.0.0.1".toList = some (0xffff * 2 ^ 32 + 167772161) := by decide
 
 /-! ## The executable denotations say what the property says (declarative reading) -/
 
